@@ -16,8 +16,21 @@ Second part (cases of kind "tm" / "gr" / "hom", corpus/C20/*.json first): the sa
 * histories: several calls on ONE motion / newref / signal / time object, in-place changes by the caller between the calls,
   every earlier result re-read after every later call, read-only inputs;
 * crashes: every call of the implementation is wrapped, an exception is a failing clause.
+
+Third part (fault points and shared state; streams "tm.faults" / "gr.faults" / "session", corpus/C20/fault_sessions.json):
+* calls that an entry point may reject (op "bad": point with 0 / 2 / 4 coordinates, of shape (3, 1) / (1, 3) / (2, 3), of text, None;
+  unknown unit; motion with 5 / 7 rows, 1-D, 3-D, transposed, of text, with None, ragged, None; wrong keyword / arity; time array too
+  long / too short / 2-D / of text / None / complex / zero step; signal 0-d / 3-d / of text / of one sample / shorter than the time
+  array) are inserted into the histories before the valid calls (after the caller's in-place changes).  Their outcome is not
+  judged; the clauses are evaluated on the NEXT valid calls on the same objects, as in every history;
+* sessions (kind "ses"): the histories of 2-4 motions / signals (own objects each; same length mostly; "twins" = the same numbers
+  and history in another container / number type) interleaved through the same module;
+* every call of the implementation is made by a worker thread with a time limit: a call that does not return is a failing clause.
 """
+import copy
 import math
+import queue
+import threading
 from fractions import Fraction
 
 import numpy as np
@@ -33,7 +46,9 @@ RULE = ("random 6-dof motions (1-5 time steps, angles up to ±180 deg / ±pi rad
         "non-trivial = at least two non-zero angles, or signal of >= 5 samples; distinct by input; "
         "cases (tm / gr / hom): containers x number types x argument passing, boundary angles / magnitudes 2^+-200 / decimal steps / "
         "1-4 samples, histories of 3-8 steps on one object with in-place changes; non-trivial = >= 2 calls or >= 2 non-zero angles "
-        "(tm), >= 5 samples or >= 3 steps (gr)")
+        "(tm), >= 5 samples or >= 3 steps (gr); "
+        "faults / sessions: the same histories with calls the entry point may reject inserted before valid calls, and 2-4 such histories "
+        "(own objects, same module) interleaved; non-trivial (session) = >= 1 rejected call and >= 2 objects")
 
 
 def euler(rx, ry, rz):
@@ -68,12 +83,50 @@ T_ARR_INT = ["int64", "list-int", "tuple-int"]
 TINY = 1e-300
 
 
+CALL_LIMIT = 4.0                                                 # seconds; a call of the implementation that takes longer "does not return"
+_HANG = {"n": 0}
+NOT_CALLED = "not called (three earlier calls did not return)"
+
+
+class _Worker:
+    """one thread that makes the calls of the implementation, so that the harness can stop waiting for a call"""
+    def __init__(self):
+        self.jobs, self.results = queue.SimpleQueue(), queue.SimpleQueue()
+        threading.Thread(target=self._loop, daemon=True).start()
+
+    def _loop(self):
+        while True:
+            f, a, k = self.jobs.get()
+            try:
+                res = (f(*a, **k), None)
+            except BaseException as e:                            # noqa: BLE001
+                res = (None, "err:%s: %s" % (type(e).__name__, str(e)[:120]))
+            self.results.put(res)
+
+
 def _call(f, *a, **k):
-    """(value, None) or (None, 'err:Type: message') — an exception of the implementation never leaves the harness"""
+    """(value, None) or (None, 'err:Type: message') — an exception of the implementation never leaves the harness, and a call
+    that does not return within CALL_LIMIT seconds is 'err:Timeout: ...' (the calls are made by a worker thread, which is
+    abandoned when it does not answer; after three such calls nothing is called any more, so that a check can never hang)"""
+    if _HANG["n"] >= 3:
+        return None, "err:Timeout: " + NOT_CALLED
+    w = _HANG.get("worker")
+    if w is None:
+        w = _HANG["worker"] = _Worker()
+    w.jobs.put((f, a, k))
     try:
-        return f(*a, **k), None
-    except Exception as e:                                        # noqa: BLE001
-        return None, "err:%s: %s" % (type(e).__name__, str(e)[:120])
+        return w.results.get(timeout=CALL_LIMIT)
+    except queue.Empty:
+        _HANG["n"] += 1
+        _HANG["worker"] = None
+        return None, "err:Timeout: the call did not return within %g s" % CALL_LIMIT
+
+
+def _hung(err):
+    return err is not None and err.startswith("err:Timeout")
+
+
+RETURNS = "every call returns: after a rejected call the same objects / the same module can be used again (the call did not return)"
 
 
 def _ro(a):
@@ -171,8 +224,9 @@ def _make_step(h, cont):
 
 
 # ---- transform_motion cases -------------------------------------------------------------------------------------------
-def _tm_states(case):
-    """pristine float state before every call step: [(step index, P (6, nt), ref (3,), unit)]"""
+def _tm_states(case, bads=None):
+    """pristine float state before every call step: [(step index, P (6, nt), ref (3,), unit)]; `bads` (a dict) receives the
+    motion state at every step of a call that may be rejected (op "bad")"""
     P = np.array(case["motion"], dtype=float).reshape(6, -1)
     ref, out = None, []
     for k, st in enumerate(case["steps"]):
@@ -182,6 +236,9 @@ def _tm_states(case):
         elif st["op"] == "setref":
             ref = ref.copy()
             ref[st["idx"]] = st["value"]
+        elif st["op"] == "bad":
+            if bads is not None:
+                bads[k] = P
         else:
             if st.get("rcont") != "same":
                 ref = np.array(st["newref"], dtype=float)
@@ -194,18 +251,71 @@ def _tm_lines(case):
             for _, P, ref, unit in _tm_states(case) for i in range(P.shape[1])]
 
 
+# calls that an entry point may reject (or answer: their outcome is not judged, only that they return); what matters is the
+# NEXT valid call on the same objects / the same module.  The faults sit at different depths of the function: before it is
+# entered (arity, keyword), shape of the motion, size of the point, unit, the trigonometry (text / None as angles), the final
+# product (a point of shape (3, 1) / (1, 3) / of text).
+BAD_TM = ["ref2", "ref2", "ref4", "ref0", "ref-none", "ref-str", "ref-strs", "ref-col", "ref-row", "ref-2x3", "unit", "unit", "kw", "arity",
+          "rows5", "rows7", "mot-1d", "mot-3d", "mot-T", "mot-str", "mot-obj", "mot-none", "mot-ragged", "mot-nt0"]
+BAD_UNITS = ["degree", "grad", "DEG", "Rad", "", None, 0, "radians"]
+
+
+def _tm_bad_args(st, mot, P):
+    """(args, kwargs) of the call of step `st` (op "bad"); `mot` is the caller's motion object, P its numbers"""
+    why, unit = st["why"], st["unit"]
+    nr = [float(v) for v in st["newref"]]
+    if why.startswith("ref"):
+        ref = {"ref2": nr[:2], "ref4": nr + [1.0], "ref0": [], "ref-none": None, "ref-str": "abc", "ref-strs": ["a", "b", "c"],
+               "ref-col": np.array(nr).reshape(3, 1), "ref-row": np.array(nr).reshape(1, 3), "ref-2x3": np.array([nr, nr])}[why]
+        if why in ("ref2", "ref4", "ref0") and st.get("rcont") in ("ndarray", "tuple"):
+            ref = np.array(ref, dtype=float) if st["rcont"] == "ndarray" else tuple(ref)
+        return (mot, ref), dict(rotunit=unit)
+    if why == "unit":
+        return (mot, nr), dict(rotunit=st["value"])
+    if why == "kw":
+        return (mot, nr), dict(unit=unit)
+    if why == "arity":
+        return (mot,), {}
+    A, nt = np.asarray(mot), P.shape[1]
+    if why == "mot-T" and nt == 6:
+        why = "rows5"
+    bad = {"rows5": lambda: A[:5], "rows7": lambda: np.vstack([P, P[:1]]), "mot-1d": lambda: A[0], "mot-3d": lambda: A[None],
+           "mot-T": lambda: A.T, "mot-str": lambda: P.astype(str), "mot-none": lambda: None, "mot-nt0": lambda: A[:, :0],
+           "mot-obj": lambda: np.array([[None if (r, c) == (4, 0) else v for c, v in enumerate(row)] for r, row in enumerate(P.tolist())],
+                                       dtype=object).reshape(6, nt),
+           "mot-ragged": lambda: P.tolist()[:5] + [P.tolist()[5] + [0.0]]}[why]()
+    return (bad, nr), dict(rotunit=unit)
+
+
 def _tm_eval(case, transform_motion, report, model=None, disagree=None):
     """evaluate the clauses of the transformation on one case (one motion OBJECT, used by every step)"""
-    states = {k: (P, ref, unit) for k, P, ref, unit in _tm_states(case)}
+    for _ in _tm_steps(case, transform_motion, report, model, disagree):
+        pass
+
+
+def _tm_steps(case, transform_motion, report, model=None, disagree=None):
+    """generator behind _tm_eval: yields after every step of the history (so that a session can interleave the histories of
+    several objects), yields "end" after the last one, and then makes the fresh-array comparisons"""
+    bads = {}
+    states = {k: (P, ref, unit) for k, P, ref, unit in _tm_states(case, bads)}
     mot = _make_2d(case["motion"], case["mcont"])
     rel = 1e-5 if case["mcont"] == "float32" else 1e-10
     refobj, earlier, deferred, mi = None, [], [], 0
     for k, st in enumerate(case["steps"]):
         if st["op"] == "set":
             mot[st["row"]][st["col"]] = st["value"]              # the caller changes his array in place
+            yield
             continue
         if st["op"] == "setref":
             refobj[st["idx"]] = st["value"]
+            yield
+            continue
+        if st["op"] == "bad":
+            a, kw = _tm_bad_args(st, mot, bads[k])
+            _, err = _call(transform_motion, *a, **kw)            # rejected or answered: not judged ...
+            if _hung(err):                                        # ... but it must return
+                report(RETURNS, "a result or an exception", err, step=k)
+            yield
             continue
         P, ref, unit = states[k]
         nt = P.shape[1]
@@ -223,12 +333,14 @@ def _tm_eval(case, transform_motion, report, model=None, disagree=None):
             mlines = model[mi:mi + nt]
             mi += nt
         if err is not None:
-            report("transform_motion returns the position of the new point for a valid 6-dof motion (it raised)",
+            report("transform_motion returns the position of the new point for a valid 6-dof motion (it raised or did not return)",
                    "positions of shape (3, %d)" % nt, err, step=k)
+            yield
             continue
         out = np.asarray(out)
         if out.shape != (3, nt):
             report("one position per time step: result of shape (3, nt)", [3, nt], list(out.shape), step=k)
+            yield
             continue
         outf = out.astype(float)
         bad = set()
@@ -262,6 +374,8 @@ def _tm_eval(case, transform_motion, report, model=None, disagree=None):
                 report("result equals an independent z-y-x Euler rotation plus the reference position "
                        "(result of step %d re-read after step %d)" % (k0, k), snap.tolist(), np.asarray(obj, dtype=float).tolist(), step=k)
         earlier.append((k, out, outf.copy()))
+        yield
+    yield "end"
     # degree and radian input agree (fresh arrays with the converted angles; after the history, so that no call of the harness
     # comes between two calls of the history)
     for k, P, ref, unit, outf in deferred:
@@ -303,6 +417,8 @@ def _gr_states(case):
         elif st["op"] == "sett":
             T = Fraction(st["t"]["step"]) if "step" in st["t"] else [Fraction(v) for v in st["t"]["arr"]]
             polys = [None] * len(polys)
+        elif st["op"] == "bad":
+            pass
         else:
             out.append((k, st["op"], X, T, polys))
     return out
@@ -319,8 +435,38 @@ def _gr_lines(case):
     return lines
 
 
+BAD_GR = ["t-long", "t-short", "t-2d", "t-row", "t-none", "t-str", "t-strs", "t-complex", "t-zero", "t-list-none",
+          "x-3d", "x-0d", "x-none", "x-str", "x-one", "x-short", "arity", "t-long", "t-short"]
+
+
+def _gr_bad_args(st, xobj, tobj):
+    """arguments of the call of step `st` (op "bad") of a velocity / acceleration history; xobj / tobj are the caller's objects"""
+    why, h = st["why"], float(Fraction(st["h"]))
+    A = np.asarray(xobj)
+    n = A.shape[-1]
+    grid = lambda m: np.arange(m) * h
+    if why.startswith("t-"):
+        t = {"t-long": lambda: grid(n + 1), "t-short": lambda: grid(n - 1), "t-2d": lambda: np.vstack([grid(n), grid(n)]),
+             "t-row": lambda: grid(n).reshape(1, n), "t-none": lambda: None, "t-str": lambda: "abc", "t-strs": lambda: ["a"] * n,
+             "t-complex": lambda: 1j, "t-zero": lambda: 0.0, "t-list-none": lambda: [None] * n}[why]()
+        return (xobj, t)
+    if why == "arity":
+        return (xobj,)
+    if why == "x-one":
+        return (A[..., :1], h)
+    x = {"x-3d": lambda: A[None, None] if A.ndim == 1 else A[None], "x-0d": lambda: 2.5, "x-none": lambda: None,
+         "x-str": lambda: ["a"] * n, "x-short": lambda: A[..., :-1]}[why]()
+    return (x, tobj)
+
+
 def _gr_eval(case, fns, report, model=None, disagree=None):
     """evaluate the clauses of velocity / acceleration on one case (one signal OBJECT and one time OBJECT for all steps)"""
+    for _ in _gr_steps(case, fns, report, model, disagree):
+        pass
+
+
+def _gr_steps(case, fns, report, model=None, disagree=None):
+    """generator behind _gr_eval (see _tm_steps)"""
     states = {k: s for s in _gr_states(case) for k in [s[0]]}
     ndim = case["ndim"]
     X0 = [[Fraction(v) for v in r] for r in case["x"]]
@@ -335,6 +481,7 @@ def _gr_eval(case, fns, report, model=None, disagree=None):
                 xobj[st["row"]][st["col"]] = float(Fraction(st["value"]))
             else:
                 xobj[st["col"]] = float(Fraction(st["value"]))
+            yield
             continue
         if st["op"] == "setrow":
             vals = [float(Fraction(v)) for v in st["values"]]
@@ -342,12 +489,20 @@ def _gr_eval(case, fns, report, model=None, disagree=None):
                 xobj[st["row"]][:] = vals
             else:
                 xobj[:] = vals
+            yield
             continue
         if st["op"] == "sett":
             if "step" in st["t"]:
                 tobj = _make_step(Fraction(st["t"]["step"]), tcont)
             else:
                 tobj[:] = [float(Fraction(v)) for v in st["t"]["arr"]]   # the same time array object, new grid
+            yield
+            continue
+        if st["op"] == "bad":
+            _, err = _call(fns[st["fn"]], *_gr_bad_args(st, xobj, tobj))   # rejected or answered: not judged, but it must return
+            if _hung(err):
+                report(RETURNS, "a result or an exception", err, step=k)
+            yield
             continue
         _, fn, X, T, polys = states[k]
         f = fns[fn]
@@ -368,14 +523,17 @@ def _gr_eval(case, fns, report, model=None, disagree=None):
             # fewer than two samples: outside the property; the tie only asks that model and implementation both refuse
             if disagree is not None and mrows is not None and (err is None) != (not mrows[0].startswith("err")):
                 disagree("mo." + fn, dict(case, step=k), mrows[0], err if err is not None else np.asarray(got).tolist())
+            yield
             continue
         if err is not None:
-            report("%s of a signal with >= 2 samples exists, for a scalar step or a time array (it raised)"
+            report("%s of a signal with >= 2 samples exists, for a scalar step or a time array (it raised or did not return)"
                    % ("velocity" if fn == "vel" else "acceleration"), "an array of shape %s" % (list(shape),), err, step=k)
+            yield
             continue
         got = np.asarray(got)
         if got.shape != shape:
             report("result keeps the input shape", list(shape), list(got.shape), step=k)
+            yield
             continue
         g2 = got.astype(float).reshape(nrow, n)
         for r in range(nrow):
@@ -409,6 +567,8 @@ def _gr_eval(case, fns, report, model=None, disagree=None):
                 report("result keeps the derivative of the signal it was computed from (result of step %d re-read after step %d)"
                        % (k0, k), snap.tolist(), np.asarray(obj, dtype=float).tolist(), step=k)
         earlier.append((k, got, got.astype(float).copy()))
+        yield
+    yield "end"
     # 2-D input is processed row by row (fresh 1-D calls, after the history)
     for k, r, f, xr, T, scalar, tol, grow in deferred:
         one, e1 = _call(f, np.array([float(v) for v in xr]), float(T) if scalar else np.array([float(v) for v in T]))
@@ -432,6 +592,38 @@ def _hom_eval(case, fns, report):
     base, sc = np.asarray(base, dtype=float), np.asarray(sc, dtype=float)
     if base.shape != sc.shape or not np.all(np.abs(sc - fac * base) <= 1e-12 * fac * (float(np.max(np.abs(base))) + TINY)):
         report("linear in the signal: f(2^p x) = 2^p f(x)", (fac * base).tolist(), sc.tolist())
+
+
+# ---- sessions: the histories of several objects, interleaved ------------------------------------------------------------------
+def _part_lines(c):
+    return _tm_lines(c) if c["kind"] == "tm" else (_gr_lines(c) if c["kind"] == "gr" else [])
+
+
+def _ses_lines(case):
+    return [ln for c in case["parts"] for ln in _part_lines(c)]
+
+
+def _ses_eval(case, fns, transform_motion, report, model=None, disagree=None):
+    """a session: several motions / signals (kind "tm" / "gr" cases, each with its own objects) used alternately through the
+    same module, `order` = which part makes its next step; the clauses of every part are evaluated as in its own history"""
+    gens, at = [], 0
+    for j, c in enumerate(case["parts"]):
+        nl = len(_part_lines(c))
+        m = None if model is None else model[at:at + nl]
+        at += nl
+        rep = lambda oracle, expected, observed, _j=j, **kw: report(oracle, expected, observed, part=_j, **kw)
+        gens.append(_tm_steps(c, transform_motion, rep, m, disagree) if c["kind"] == "tm" else _gr_steps(c, fns, rep, m, disagree))
+    ended = [False] * len(gens)
+    for j in list(case["order"]) + [None]:
+        for i in (range(len(gens)) if j is None else [j]):        # None: whatever is left of every history, part by part
+            while not ended[i]:
+                if next(gens[i]) == "end":
+                    ended[i] = True
+                if j is not None:
+                    break
+    for g in gens:                                                # the comparisons with fresh arrays, after all histories
+        for _ in g:
+            pass
 
 
 # ---- generators (every choice from rng) ---------------------------------------------------------------------------------
@@ -496,8 +688,8 @@ def _gen_tm_boundary(rng):
                 steps=[dict(op="call", newref=newref, rcont=rng.choice(["list", "ndarray", "tuple"]), unit=unit, unitarg="kw")])
 
 
-def _gen_tm_history(rng):
-    nt = rng.choice([1, 2, 4])
+def _gen_tm_history(rng, nt=None):
+    nt = rng.choice([1, 2, 4]) if nt is None else nt
     pos = [[rng.randint(-400, 400) / 8.0 for _ in range(nt)] for _ in range(3)]
     rot = [[rng.choice([rng.randint(-1400, 1400) / 8.0, 0.0, 90.0, 2.5]) for _ in range(nt)] for _ in range(3)]
     mcont = rng.choice(TM_CONT_MUTABLE + ["ndarray", "readonly", "list"])
@@ -637,8 +829,8 @@ def _gen_gr_boundary(rng):
                 polys=[None if po is None else [_rs(v) for v in po]], steps=[dict(op="vel"), dict(op="acc")])
 
 
-def _gen_gr_history(rng):
-    n = rng.choice([3, 5, 6, 9])
+def _gen_gr_history(rng, n=None):
+    n = rng.choice([3, 5, 6, 9]) if n is None else n
     ndim = rng.choice([1, 2])
     nrow = 1 if ndim == 1 else rng.choice([2, 3])
     h, ts, t0 = _gen_grid(rng, n, False)
@@ -691,6 +883,101 @@ def _gen_hom(rng):
                 t=dict(step=_rs(h)) if scalar else dict(arr=[_rs(v) for v in ts]))
 
 
+def _with_faults(rng, case, p=0.4):
+    """the history `case` (kind "tm" / "gr") with calls that the entry point may reject inserted before some of its valid calls
+    (never before the first one; after the in-place changes that precede the call): rejected call, then the corrected call"""
+    steps, seen = [], False
+    calls = ("call",) if case["kind"] == "tm" else ("vel", "acc")
+    for st in case["steps"]:
+        if st["op"] in calls:
+            if seen and rng.random() < p:
+                for _ in range(rng.choice([1, 1, 2])):
+                    if case["kind"] == "tm":
+                        why = rng.choice(BAD_TM)
+                        b = dict(op="bad", why=why, unit=st["unit"], newref=[rng.randint(-240, 240) / 8.0 for _ in range(3)])
+                        if why in ("ref2", "ref4", "ref0"):
+                            b["rcont"] = rng.choice(["list", "tuple", "ndarray"])
+                        if why == "unit":
+                            b["value"] = rng.choice(BAD_UNITS)
+                    else:
+                        b = dict(op="bad", why=rng.choice(BAD_GR), fn=rng.choice([st["op"], "vel", "acc"]),
+                                 h=_rs(Fraction(1, rng.choice([1, 2, 4, 8]))))
+                    steps.append(b)
+            seen = True
+        steps.append(st)
+    return dict(case, steps=steps)
+
+
+def _gen_tm_faults(rng):
+    return _with_faults(rng, _gen_tm_history(rng), p=0.6)
+
+
+def _gen_gr_faults(rng):
+    return _with_faults(rng, _gen_gr_history(rng) if rng.random() < 0.7 else _gen_gr_spelling(rng), p=0.6)
+
+
+def _twin(rng, c):
+    """the same numbers and the same history on a second object in another spelling (container / number type)"""
+    c = copy.deepcopy(c)
+    ops = set(st["op"] for st in c["steps"])
+    if c["kind"] == "tm":
+        c["mcont"] = rng.choice(TM_CONT_MUTABLE + ["list"]) if "set" in ops else rng.choice(TM_CONT_FLOAT)
+        for st in c["steps"]:
+            if st["op"] == "call" and st.get("rcont") not in (None, "same"):
+                st["rcont"] = rng.choice(["ndarray", "list"]) if "setref" in ops else rng.choice(REF_CONT_FLOAT)
+        return c
+    changes = ops & {"setx", "setrow", "sett"}
+    if c["ndim"] == 1:
+        c["xcont"] = rng.choice(["ndarray", "list", "step-view"] if changes else X_CONT_FLOAT)
+    else:
+        c["xcont"] = rng.choice(["ndarray", "list", "list-of-arrays", "F-order", "T-view"] if changes else X2_CONT_FLOAT)
+    if "step" in c["t"]:
+        h = Fraction(c["t"]["step"])
+        c["tcont"] = rng.choice(T_SCALAR_FLOAT + (["np.float32", "0-d"] if _pow2(h) and not changes else []) +
+                                (["int", "np.int64"] if h.denominator == 1 and not changes else []))
+    else:
+        c["tcont"] = rng.choice(["ndarray", "list", "step-view"] if changes else T_ARR_FLOAT)
+    return c
+
+
+def _gen_session(rng):
+    mode = rng.choice(["tm", "tm", "gr", "mixed"])
+    parts = []
+    if mode in ("tm", "mixed"):
+        first = _with_faults(rng, _gen_tm_history(rng))
+        nt = len(first["motion"][0])
+        parts.append(first)
+        for _ in range(rng.choice([1, 1, 2]) if mode == "tm" else rng.choice([0, 1])):
+            u = rng.random()
+            parts.append(_twin(rng, rng.choice(parts)) if u < 0.25 else
+                         _with_faults(rng, _gen_tm_history(rng, nt if u < 0.8 else None)))
+    if mode in ("gr", "mixed"):
+        first = _with_faults(rng, _gen_gr_history(rng))
+        n = len(first["x"][0])
+        mine = [first]
+        for _ in range(rng.choice([1, 1, 2]) if mode == "gr" else rng.choice([0, 1])):
+            u = rng.random()
+            mine.append(_twin(rng, rng.choice(mine)) if u < 0.25 else _with_faults(rng, _gen_gr_history(rng, n if u < 0.8 else None)))
+        parts += mine
+    # order: a part makes its in-place changes, rejected calls and the next valid call in one go (mostly), then another part
+    pos, order = [0] * len(parts), []
+    calls = ("call", "vel", "acc")
+    while True:
+        live = [j for j, c in enumerate(parts) if pos[j] < len(c["steps"])]
+        if not live:
+            break
+        j = rng.choice(live)
+        glue = rng.random() < 0.8
+        for _ in range(rng.choice([1, 1, 2])):
+            while pos[j] < len(parts[j]["steps"]):
+                op = parts[j]["steps"][pos[j]]["op"]
+                order.append(j)
+                pos[j] += 1
+                if op in calls or not glue:
+                    break
+    return dict(kind="ses", parts=parts, order=order)
+
+
 def is_f39_shape(f):
     """finding F39 (proposed): a scalar time step that is not a Python float (int, numpy integer, float32, 0-d array) is taken
     for a time array and rejected by the size assertion.  Narrow: gradient case, such a step type, an AssertionError."""
@@ -700,27 +987,36 @@ def is_f39_shape(f):
 
 
 def _run_cases(chk, drv, cases, stream, fns, transform_motion):
-    """model replies for all cases in one driver run, then the clauses of every case on the implementation"""
+    """model replies for all cases in one driver run, then the clauses of every case on the implementation
+    (`stream`: one label, or one label per case)"""
     lines, spans = [], []
     for c in cases:
-        ls = _tm_lines(c) if c["kind"] == "tm" else (_gr_lines(c) if c["kind"] == "gr" else [])
+        ls = _ses_lines(c) if c["kind"] == "ses" else _part_lines(c)
         spans.append((len(lines), len(lines) + len(ls)))
         lines += ls
     outs = drv.run(lines)
-    for c, (a, b) in zip(cases, spans):
+    labels = stream if isinstance(stream, list) else [stream] * len(cases)
+    for c, (a, b), stream in zip(cases, spans, labels):
         chk.count(stream)
         rep = lambda oracle, expected, observed, _c=c, **kw: chk.fail(oracle, _c, expected, observed, **kw)
         try:
             if c["kind"] == "tm":
                 _tm_eval(c, transform_motion, rep, outs[a:b], chk.disagree)
                 ncall = sum(1 for s in c["steps"] if s["op"] == "call")
-                chk.dist("%s:%s:calls=%s" % (stream, c["mcont"], min(ncall, 3)))
+                nbad = sum(1 for s in c["steps"] if s["op"] == "bad")
+                chk.dist("%s:%s:calls=%s%s" % (stream, c["mcont"], min(ncall, 3), ":rejected=%d" % min(nbad, 3) if nbad else ""))
                 if ncall >= 2 or np.count_nonzero(np.array(c["motion"], dtype=float)[3:]) >= 2:
                     chk.nontriv(repr(c))
             elif c["kind"] == "gr":
                 _gr_eval(c, fns, rep, outs[a:b], chk.disagree)
                 chk.dist("%s:%s:%s" % (stream, c["xcont"], c["tcont"]))
                 if len(c["x"][0]) >= 5 or len(c["steps"]) >= 3:
+                    chk.nontriv(repr(c))
+            elif c["kind"] == "ses":
+                _ses_eval(c, fns, transform_motion, rep, outs[a:b], chk.disagree)
+                nbad = sum(1 for pc in c["parts"] for st in pc["steps"] if st["op"] == "bad")
+                chk.dist("%s:%s:rejected=%s" % (stream, "+".join(sorted(pc["kind"] for pc in c["parts"])), min(nbad, 3)))
+                if nbad and len(c["parts"]) >= 2:
                     chk.nontriv(repr(c))
             else:
                 _hom_eval(c, fns, rep)
@@ -743,8 +1039,12 @@ def run(chk):
     rng = chk.rng
     drv = core.Driver()
     fns = dict(vel=velocity, acc=acceleration)
+    # calls that were not made any more (after three calls that did not return) are not failing inputs of their own
+    fail0 = chk.fail
+    chk.fail = lambda oracle, inp, expected, observed, **kw: None if NOT_CALLED in str(observed) or NOT_CALLED in str(expected) else \
+        fail0(oracle, inp, expected, observed, **kw)
     # ---- corner cases that are always tried first (corpus/C20) ------------------------------------------------------
-    _run_cases(chk, drv, [c for c in core.load_corpus("C20") if c.get("kind") in ("tm", "gr", "hom")], "corpus", fns, transform_motion)
+    _run_cases(chk, drv, [c for c in core.load_corpus("C20") if c.get("kind") in ("tm", "gr", "hom", "ses")], "corpus", fns, transform_motion)
     # ---- transform_motion ---------------------------------------------------------------------------------------
     N = 200 if chk.quick else 3000
     lines, meta = [], []
@@ -769,7 +1069,7 @@ def run(chk):
             ref = [0.0, 0.0, 0.0]
         out, err = _call(transform_motion, mot, ref, rotunit=unit)
         if err is not None:
-            chk.fail("transform_motion returns the position of the new point for a valid 6-dof motion (it raised)",
+            chk.fail("transform_motion returns the position of the new point for a valid 6-dof motion (it raised or did not return)",
                      dict(motion=mot[:, 0].tolist(), newref=ref, rotunit=unit), "positions of shape (3, %d)" % nt, err)
             continue
         for i in range(nt):
@@ -871,11 +1171,8 @@ def run(chk):
         xf = np.array([float(v) for v in xs])
         inp = dict(fn=fn, t=[str(v) for v in ts] if not scalar else str(h), x=[str(v) for v in xs])
         f = velocity if fn == "vel" else acceleration
-        try:
-            got = f(xf, tf)
-            im = [float(v) for v in got]
-        except Exception as e:
-            got, im = None, "err:" + type(e).__name__
+        got, err = _call(f, xf, tf)
+        im = [float(v) for v in got] if err is None else err.split(": ")[0]
         if len(xs) >= 5:
             chk.nontriv(repr(inp))
         chk.dist("%s:%s:%s" % (fn, "scalar" if scalar else ("uniform-arr" if uniform else "nonuniform"),
@@ -927,13 +1224,19 @@ def run(chk):
                              ("gr.spelling", _gen_gr_spelling, 220), ("gr.boundary", _gen_gr_boundary, 160), ("gr.history", _gen_gr_history, 80),
                              ("gr.units", _gen_hom, 60)):
         _run_cases(chk, drv, [gen(rng) for _ in range(cnt * q)], stream, fns, transform_motion)
+    # ---- fault points and shared state: rejected calls inside the histories; sessions of several objects (one driver run) ----
+    cases, labels = [], []
+    for stream, gen, cnt in (("tm.faults", _gen_tm_faults, 80), ("gr.faults", _gen_gr_faults, 80), ("session", _gen_session, 100)):
+        cases += [gen(rng) for _ in range(cnt * q)]
+        labels += [stream] * (cnt * q)
+    _run_cases(chk, drv, cases, labels, fns, transform_motion)
 
 
 def replay(rp):
     from qats.motions import transform_motion, velocity, acceleration
     inp = rp["input"]
     bad = 0
-    if inp.get("kind") in ("tm", "gr", "hom"):
+    if inp.get("kind") in ("tm", "gr", "hom", "ses"):
         fails = []
 
         def rep(oracle, expected, observed, **kw):
@@ -944,7 +1247,9 @@ def replay(rp):
             print("model and implementation differ (%s): model %s impl %s" % (stream, m, im))
         case = {k: v for k, v in inp.items() if k not in ("step", "index", "row")}
         drv = core.Driver()
-        if case["kind"] == "tm":
+        if case["kind"] == "ses":
+            _ses_eval(case, dict(vel=velocity, acc=acceleration), transform_motion, rep, drv.run(_ses_lines(case)), dis)
+        elif case["kind"] == "tm":
             _tm_eval(case, transform_motion, rep, drv.run(_tm_lines(case)), dis)
         elif case["kind"] == "gr":
             _gr_eval(case, dict(vel=velocity, acc=acceleration), rep, drv.run(_gr_lines(case)), dis)
